@@ -1948,7 +1948,8 @@ def m_chars_as_str(ex, c, args):
 @model("str::starts_with", "str::ends_with", "str::contains", "str::strip_prefix", "str::strip_suffix", "str::split_once",
        "str::find", "str::trim", "str::trim_end", "str::trim_start", "str::split", "str::lines", "str::to_lowercase",
        "str::to_uppercase", "str::replace", "str::split_whitespace", "str::rfind", "str::trim_start_matches", "str::trim_end_matches",
-       "str::bytes", "str::is_char_boundary", "str::repeat", "str::eq_ignore_ascii_case", "str::to_ascii_lowercase")
+       "str::bytes", "str::is_char_boundary", "str::repeat", "str::eq_ignore_ascii_case", "str::to_ascii_lowercase",
+       "str::trim_end_matches", "str::trim_start_matches")
 def m_str_concrete(ex, c, args):
     v = rda(args[0])
     if type(v) is BStr:
@@ -1967,6 +1968,20 @@ def m_str_concrete(ex, c, args):
         if isinstance(p, str):
             return p
         raise Unmodelled("%s with pattern %r" % (c.key, p))
+    if m in ("trim_end_matches", "trim_start_matches"):
+        pv = a[0]
+        def hit(ch):
+            if type(pv) in (Closure, FnItem):
+                return ex.branch(ex.call_value(args[1], [ord(ch)]), "trim-pat")
+            return ch == pat(pv)
+        s_ = v
+        if m == "trim_end_matches":
+            while s_ and hit(s_[-1]):
+                s_ = s_[:-1]
+        else:
+            while s_ and hit(s_[0]):
+                s_ = s_[1:]
+        return s_
     if m == "starts_with":
         return v.startswith(pat(a[0]))
     if m == "ends_with":
@@ -2045,7 +2060,7 @@ def m_len_utf8(ex, c, args):
 @model("char::is_alphanumeric", "char::is_alphabetic", "char::is_numeric", "char::is_whitespace", "char::is_uppercase",
        "char::is_lowercase", "char::is_ascii_digit", "char::is_ascii", "char::is_ascii_alphabetic", "char::is_ascii_alphanumeric",
        "char::is_ascii_uppercase", "char::is_ascii_lowercase", "char::is_ascii_punctuation", "char::is_control", "char::is_ascii_whitespace",
-       "char::is_ascii_hexdigit")
+       "char::is_ascii_hexdigit", "char::is_ascii_graphic", "char::is_ascii_control")
 def m_char_class(ex, c, args):
     ch = rda(args[0])
     if not isinstance(ch, int):
@@ -2064,6 +2079,7 @@ def m_char_class(ex, c, args):
         "is_ascii_punctuation": ch < 128 and not s.isalnum() and not s.isspace() and ch > 32 and ch != 127,
         "is_control": ch < 32 or 127 <= ch < 160, "is_ascii_whitespace": s in " \t\n\r\x0c",
         "is_ascii_hexdigit": s in "0123456789abcdefABCDEF",
+        "is_ascii_graphic": 0x21 <= ch <= 0x7E, "is_ascii_control": ch < 32 or ch == 127,
     }[m]
 
 
